@@ -230,6 +230,263 @@ theorem C06_fresh_before_wrap (max probes : Nat) (hp : 1 ≤ probes) (t : Table)
   have : ¬ (t.chani + 1 > max) := by omega
   simp [nextChannel, this, hfree]
 
+
+/-! ## The same histories with the clock: lazy expiry and refreshed UDP associations -/
+
+/-- Invariant of the client's tables: the id table's invariant, one entry per id among the held
+DNS requests / UDP associations, and every held association's id is registered. -/
+def Timed.Inv (max : Nat) (s : Timed) : Prop :=
+  s.t.Inv max ∧ (s.dl.map (·.1)).Nodup ∧ ∀ e ∈ s.dl, e.1 ∈ s.t.ids
+
+theorem fst_inj_of_nodup {l : List (Nat × Nat)} (h : (l.map (·.1)).Nodup) {a b : Nat × Nat}
+    (ha : a ∈ l) (hb : b ∈ l) (hab : a.1 = b.1) : a = b := by
+  induction l with
+  | nil => cases ha
+  | cons e l ih =>
+    simp only [List.map_cons, List.nodup_cons, List.mem_map, not_exists, not_and] at h
+    rcases List.mem_cons.mp ha with e1 | m1 <;> rcases List.mem_cons.mp hb with e2 | m2
+    · rw [e1, e2]
+    · subst e1; exact absurd hab.symm (h.1 b m2)
+    · subst e2; exact absurd hab (h.1 a m1)
+    · exact ih h.2 m1 m2
+
+theorem Timed.inv_expire (max : Nat) (s : Timed) (now : Nat) (h : s.Inv max) : (s.expire now).Inv max := by
+  obtain ⟨⟨hn, hb⟩, hd, hr⟩ := h
+  unfold Timed.expire
+  refine ⟨?_, ?_, ?_⟩
+  · simp only [Table.Inv, Table.ids]
+    have hsub : ((s.t.live.filter fun e => !((s.dl.filter fun e => decide (e.2 < now)).map (·.1)).contains e.1).map (·.1)).Sublist
+        (s.t.live.map (·.1)) := (List.filter_sublist).map _
+    exact ⟨hn.sublist hsub, fun x hx => hb x (hsub.subset hx)⟩
+  · exact hd.sublist ((List.filter_sublist).map _)
+  · intro e he
+    simp only [List.mem_filter, Bool.not_eq_eq_eq_not, Bool.not_true, decide_eq_false_iff_not] at he
+    obtain ⟨hel, hlive⟩ := he
+    have hin := hr e hel
+    simp only [Table.ids, List.mem_map] at hin ⊢
+    obtain ⟨x, hx, hxe⟩ := hin
+    refine ⟨x, ?_, hxe⟩
+    simp only [List.mem_filter, Bool.not_eq_eq_eq_not, Bool.not_true]
+    refine ⟨hx, ?_⟩
+    cases hc : ((s.dl.filter fun e => decide (e.2 < now)).map (·.1)).contains x.1 with
+    | false => rfl
+    | true =>
+      exfalso
+      simp only [List.contains_eq_mem, List.mem_map, List.mem_filter, decide_eq_true_eq] at hc
+      obtain ⟨e', ⟨he'l, he'lt⟩, he'x⟩ := hc
+      have : e' = e := fst_inj_of_nodup hd he'l hel (by rw [he'x, hxe])
+      subst this
+      exact hlive he'lt
+
+theorem Timed.inv_step (max probes : Nat) (hmax : 1 ≤ max) (s : Timed) (op : TOp) (h : s.Inv max) :
+    (s.step max probes op).1.Inv max := by
+  have h0 := h
+  obtain ⟨hT, hd, hr⟩ := h
+  cases op with
+  | tick d => exact ⟨hT, hd, hr⟩
+  | again c =>
+    simp only [Timed.step]
+    split
+    · split
+      · apply Timed.inv_expire
+        have hm : (s.dl.map fun e => if (e.1 == c) = true then (c, s.now + 30) else e).map (·.1) = s.dl.map (·.1) := by
+          rw [List.map_map]
+          apply List.map_congr_left
+          intro e _
+          simp only [Function.comp]
+          split
+          next hc => simp only [beq_iff_eq] at hc; exact hc.symm
+          · rfl
+        refine ⟨hT, by rw [hm]; exact hd, ?_⟩
+        intro e he
+        have : e.1 ∈ (s.dl.map fun e => if (e.1 == c) = true then (c, s.now + 30) else e).map (·.1) :=
+          List.mem_map.mpr ⟨e, he, rfl⟩
+        rw [hm] at this
+        obtain ⟨e0, he0, h0e⟩ := List.mem_map.mp this
+        rw [← h0e]; exact hr e0 he0
+      · exact h0
+    · exact h0
+  | base o =>
+    cases o with
+    | close c =>
+      simp only [Timed.step]
+      have hT' := Table.inv_step max probes hmax s.t (.close c) hT
+      refine ⟨hT', hd.sublist ((List.filter_sublist).map _), ?_⟩
+      intro e he
+      simp only [List.mem_filter, bne_iff_ne, ne_eq] at he
+      have hin := hr e he.1
+      simp only [Table.step, Table.ids, List.mem_map] at hin ⊢
+      obtain ⟨x, hx, hxe⟩ := hin
+      exact ⟨x, List.mem_filter.mpr ⟨hx, by simp only [bne_iff_ne, ne_eq]; rw [hxe]; exact he.2⟩, hxe⟩
+    | frame c =>
+      simp only [Timed.step]
+      have hT' := Table.inv_step max probes hmax s.t (.frame c) hT
+      have key : ∀ (t1 : Table) (o : Out), s.t.step max probes (.frame c) = (t1, o) →
+          (∀ f, o = .delivered .dns f → t1.live = s.t.live.filter (·.1 != c)) ∧
+          ((∀ f, o ≠ .delivered .dns f) → t1 = s.t) := by
+        intro t1 o hst
+        simp only [Table.step] at hst
+        cases hf : s.t.live.find? (·.1 == c) with
+        | none =>
+          rw [hf] at hst
+          injection hst with a b; subst a; subst b
+          exact ⟨fun f hf => (by cases hf), fun _ => rfl⟩
+        | some x =>
+          obtain ⟨c', k', f'⟩ := x
+          rw [hf] at hst
+          cases k' with
+          | dns =>
+            injection hst with a b; subst a; subst b
+            exact ⟨fun _ _ => rfl, fun hne => absurd rfl (hne _)⟩
+          | tcp =>
+            injection hst with a b; subst a; subst b
+            exact ⟨fun f hf => (by cases hf), fun _ => rfl⟩
+          | udp =>
+            injection hst with a b; subst a; subst b
+            exact ⟨fun f hf => (by cases hf), fun _ => rfl⟩
+      generalize hst : s.t.step max probes (.frame c) = r at hT'
+      obtain ⟨t1, o⟩ := r
+      obtain ⟨k1, k2⟩ := key t1 o hst
+      split
+      next t1' f heq =>
+        injection heq with a b; subst a; subst b
+        refine ⟨hT', hd.sublist ((List.filter_sublist).map _), ?_⟩
+        intro e he
+        simp only [List.mem_filter, bne_iff_ne, ne_eq] at he
+        have hin := hr e he.1
+        simp only [Table.ids, List.mem_map] at hin ⊢
+        obtain ⟨x, hx, hxe⟩ := hin
+        rw [k1 f rfl]
+        exact ⟨x, List.mem_filter.mpr ⟨hx, by simp only [bne_iff_ne, ne_eq]; rw [hxe]; exact he.2⟩, hxe⟩
+      next t1' o' hno heq =>
+        injection heq with a b; subst a; subst b
+        have : t1 = s.t := k2 (fun f hf => hno f hf)
+        subst this
+        exact ⟨hT, hd, hr⟩
+    | «open» k =>
+      simp only [Timed.step]
+      have hT' := Table.inv_step max probes hmax s.t (.open k) hT
+      have key : ∀ (t1 : Table) (o : Out), s.t.step max probes (.open k) = (t1, o) →
+          (∀ c f, o = .opened c f → t1.live = s.t.live ++ [(c, k, f)] ∧ c ∉ s.t.ids) ∧
+          ((∀ c f, o ≠ .opened c f) → t1.live = s.t.live) := by
+        intro t1 o hst
+        simp only [Table.step] at hst
+        cases hnc : nextChannel max s.t.occ probes s.t.chani with
+        | mk r ch =>
+          rw [hnc] at hst
+          cases r with
+          | none =>
+            injection hst with a b; subst a; subst b
+            exact ⟨fun c f hf => (by cases hf), fun _ => rfl⟩
+          | some c =>
+            simp only at hst
+            injection hst with a b; subst a; subst b
+            obtain ⟨_, _, h3, _⟩ := C06_alloc_sound max hmax s.t.occ probes s.t.chani c ch hnc
+            refine ⟨fun c' f' hf => ?_, fun hne => absurd rfl (hne _ _)⟩
+            injection hf with hc hf2; subst hc; subst hf2
+            refine ⟨rfl, ?_⟩
+            intro hin
+            have := (occ_iff s.t c).mpr hin
+            rw [h3] at this; cases this
+      generalize hst : s.t.step max probes (.open k) = r at hT'
+      obtain ⟨t1, o⟩ := r
+      obtain ⟨k1, k2⟩ := key t1 o hst
+      split
+      next t1' c f heq =>
+        injection heq with a b; subst a; subst b
+        obtain ⟨hl, hfree⟩ := k1 c f rfl
+        apply Timed.inv_expire
+        have hids : ∀ x, x ∈ s.t.ids → x ∈ t1.ids := by
+          intro x hx
+          simp only [Table.ids, hl, List.map_append, List.mem_append]
+          exact Or.inl hx
+        have hcin : c ∈ t1.ids := by
+          simp [Table.ids, hl]
+        refine ⟨hT', ?_, ?_⟩
+        · simp only
+          split
+          · exact hd
+          · rw [List.map_append, List.nodup_append]
+            refine ⟨hd, by simp, ?_⟩
+            intro a ha b hb2
+            simp only [List.map_cons, List.map_nil, List.mem_singleton] at hb2
+            subst hb2
+            intro hab; subst hab
+            obtain ⟨e, he, hea⟩ := List.mem_map.mp ha
+            exact hfree (hea ▸ hr e he)
+        · intro e he
+          simp only at he
+          split at he
+          · exact hids _ (hr e he)
+          · rcases List.mem_append.mp he with h1 | h1
+            · exact hids _ (hr e h1)
+            · simp only [List.mem_singleton] at h1; subst h1; exact hcin
+      next t1' o' hno heq =>
+        injection heq with a b; subst a; subst b
+        have hl : t1.live = s.t.live := k2 (fun c f hf => hno c f hf)
+        refine ⟨hT', hd, ?_⟩
+        intro e he
+        simp only [Table.ids, hl]
+        exact hr e he
+
+theorem Timed.inv_run (max probes : Nat) (hmax : 1 ≤ max) (s : Timed) (ops : List TOp)
+    (h : s.Inv max) : (Timed.run max probes s ops).1.Inv max := by
+  induction ops generalizing s with
+  | nil => exact h
+  | cons op ops ih =>
+    simp only [Timed.run]
+    exact ih _ (Timed.inv_step max probes hmax s op h)
+
+/-- **C06 distinctness, with the clock.**  After any history of arrivals of the three kinds,
+closes, frames, clock advances (so: lazy expiry sweeps at the end of every accept handler) and
+datagrams from sources that already have an association, starting at any time: open flows own
+pairwise distinct non-zero ids within range, the client holds at most one association per id,
+and every association it holds (and will send on) owns a registered id — so the allocator skips
+it. -/
+theorem C06_distinct_timed (max probes : Nat) (hmax : 1 ≤ max) (now : Nat) (ops : List TOp) :
+    let s := (Timed.run max probes { now := now } ops).1
+    s.t.ids.Nodup ∧ (∀ c ∈ s.t.ids, c ≠ 0 ∧ c ≤ max) ∧ (s.dl.map (·.1)).Nodup ∧ ∀ e ∈ s.dl, e.1 ∈ s.t.ids := by
+  have h := Timed.inv_run max probes hmax { now := now } ops
+    ⟨⟨List.nodup_nil, by simp [Table.ids]⟩, List.nodup_nil, by simp⟩
+  exact ⟨h.1.1, fun c hc => ⟨by have := (h.1.2 c hc).1; omega, (h.1.2 c hc).2⟩, h.2.1, h.2.2⟩
+
+/-- A datagram from a source with an association refreshes it before the sweep of the same
+handler: however long the source was silent, the association is still held afterwards, with a
+deadline 30 s ahead, and its id is still registered. -/
+theorem C06_refresh_survives_sweep (max probes : Nat) (hmax : 1 ≤ max) (s : Timed) (h : s.Inv max) (c : Nat)
+    (hs : (s.step max probes (.again c)).2 = .sent c) :
+    (c, s.now + 30) ∈ (s.step max probes (.again c)).1.dl ∧ c ∈ (s.step max probes (.again c)).1.t.ids := by
+  have hinv := Timed.inv_step max probes hmax s (.again c) h
+  have hmem : (c, s.now + 30) ∈ (s.step max probes (.again c)).1.dl := by
+    simp only [Timed.step] at hs ⊢
+    cases hf : s.t.live.find? (·.1 == c) with
+    | none => rw [hf] at hs; cases hs
+    | some x =>
+      obtain ⟨c', k', f'⟩ := x
+      rw [hf] at hs
+      cases k' with
+      | tcp => cases hs
+      | dns => cases hs
+      | udp =>
+        simp only at hs ⊢
+        cases hany : s.dl.any (·.1 == c) with
+        | false => rw [hany] at hs; cases hs
+        | true =>
+          simp only [↓reduceIte, Timed.expire]
+          simp only [List.any_eq_true, beq_iff_eq] at hany
+          obtain ⟨e, he, hec⟩ := hany
+          simp only [List.mem_filter, Bool.not_eq_eq_eq_not, Bool.not_true, decide_eq_false_iff_not]
+          refine ⟨List.mem_map.mpr ⟨e, he, by simp [hec]⟩, by omega⟩
+  exact ⟨hmem, hinv.2.2 _ hmem⟩
+
+/-- Non-vacuity: a source silent for 61 s sends again — its association (id 1) survives the sweep
+that removes the DNS request opened at the same time (id 2); the next arrival skips id 1. -/
+example :
+    (Timed.run 2 4 { now := 1000 } [.base (.open .udp), .base (.open .dns), .tick 61, .again 1,
+                                     .base (.open .tcp), .base (.open .tcp)]).2 =
+      [.base (.opened 1 0), .base (.opened 2 1), .ticked, .sent 1, .base (.opened 2 2), .base .discarded] := by
+  decide
+
 /-- Non-vacuity: a history with wrap-around (MAX = 3), dense occupancy and a late frame. -/
 example :
     (Table.run 3 4 {} [.open .tcp, .open .dns, .open .udp, .open .tcp, .close 2, .frame 2,
